@@ -43,7 +43,8 @@ def make_config(rng: random.Random):
     cfg = dict(ny=ny, nx=nx, layout=layout, ns=ns, dtype=dtype, nodata=nodata, crs=rng.choice(["EPSG:3857", "EPSG:4326", "EPSG:32633", "EPSG:3577"]), rotated=rng.random() < 0.2,
                blocksize=rng.choice([None, None, 16, 64, 100, 256, 512, 48]), ovr_blocksize=rng.choice([None, None, 16, 64]), overviews=ovr, windowed=rng.random() < 0.25,
                intermediate=rng.choice([False, False, True, "zstd", {"compress": "lzw"}]), dest=rng.choice(["file", "file", "mem"]), existing=rng.choice([None, None, "no-overwrite", "overwrite"]),
-               api=rng.choice(["write_cog", "write_cog", "layers"]), data_seed=rng.randint(0, 10**6), nodata_via=rng.choice(["attrs", "attrs", "kw", "kw-over-attrs"]), data_kind=rng.choice(["random", "patchy", "patchy", "constant"]))
+               api=rng.choice(["write_cog", "write_cog", "layers"]), data_seed=rng.randint(0, 10**6), nodata_via=rng.choice(["attrs", "attrs", "kw", "kw-over-attrs"]), data_kind=rng.choice(["random", "patchy", "patchy", "constant"]),
+               ambient_env=rng.choice([None, None, None, {"GDAL_DISABLE_READDIR_ON_OPEN": "EMPTY_DIR"}, {"GDAL_DISABLE_READDIR_ON_OPEN": "TRUE", "GDAL_CACHEMAX": 64}, {"GDAL_NUM_THREADS": "2", "CPL_DEBUG": "OFF"}]))
     if isinstance(ovr, list):
         # GDAL refuses level lists that collapse the image to 1x1 more than once: keep levels that leave >= 2 px on the longer side
         ovr = [L for L in ovr if max(ny, nx) / L >= 2]
@@ -210,7 +211,12 @@ def run_config(mon: Monitor, cfg, workdir: str) -> None:
 
     try:
         with FsAudit() as audit:
-            res, exc = call(go)
+            if cfg.get("ambient_env"):
+                # the caller's own GDAL configuration (cloud COG-reading workers run with directory listing switched off)
+                with rasterio.Env(**cfg["ambient_env"]):
+                    res, exc = call(go)
+            else:
+                res, exc = call(go)
         if cfg["existing"] == "no-overwrite":
             st = os.stat(fn) if os.path.exists(fn) else None
             after = (hashlib.sha1(open(fn, "rb").read()).hexdigest(), st.st_ino, st.st_mtime_ns) if st else None
@@ -284,6 +290,9 @@ def run_config(mon: Monitor, cfg, workdir: str) -> None:
 
 
 PINNED = [
+    # supplied overviews written under an ambient GDAL configuration that switches directory listing off (C15-5)
+    dict(ny=64, nx=80, layout="YX", ns=1, dtype="uint16", nodata=None, crs="EPSG:3857", rotated=False, blocksize=32, ovr_blocksize=None, overviews="external", windowed=False, intermediate=False, dest="file", existing=None, api="write_cog", data_seed=24, nodata_via="attrs", data_kind="random", ambient_env={"GDAL_DISABLE_READDIR_ON_OPEN": "EMPTY_DIR"}),
+    dict(ny=48, nx=40, layout="SYX", ns=2, dtype="float32", nodata=-9999, crs="EPSG:4326", rotated=False, blocksize=16, ovr_blocksize=16, overviews="external", windowed=False, intermediate=False, dest="mem", existing=None, api="layers", data_seed=25, nodata_via="attrs", data_kind="random", ambient_env={"GDAL_DISABLE_READDIR_ON_OPEN": "EMPTY_DIR"}),
     # supplied overviews x nodata by keyword (differs from / absent in attrs): the conjunction seeded change C15-1 needs
     dict(ny=64, nx=80, layout="YX", ns=1, dtype="int16", nodata=-9999, crs="EPSG:3857", rotated=False, blocksize=32, ovr_blocksize=None, overviews="external", windowed=False, intermediate=False, dest="file", existing=None, api="write_cog", data_seed=21, nodata_via="kw", data_kind="random"),
     dict(ny=33, nx=40, layout="SYX", ns=2, dtype="uint8", nodata=255, crs="EPSG:4326", rotated=False, blocksize=16, ovr_blocksize=16, overviews="external", windowed=False, intermediate=False, dest="mem", existing=None, api="write_cog", data_seed=22, nodata_via="kw-over-attrs", data_kind="patchy"),
